@@ -21,7 +21,7 @@ CLAIMS = {
             "a move is generated iff it encodes a legal move of spec/Rules.v (pseudo-legal by the rules' own lists and king not attacked in the rules' successor), and no move "
             "is generated twice; promotions once per piece (C01_movegen_exact, C01_movegen_sound, C01_movegen_complete). Without ep_ok_b soundness is false (witness theorem: a "
             "parser-accepted, retro-inconsistent FEN). Both premises are kept by every generated move and null move and are evaluated (true) on every position of D the run uses. "
-            "Also as a Permutation of lists (the rules list no move twice). Not proved: that the executable domain test in_D implies inv_b and ep_ok_b (evaluated instead). The tie of the model to the Rust generator: the real generator (all entry points) against the extracted specification on generated positions of D (play-outs, suite FENs, "
+            "Also as a Permutation of lists (the rules list no move twice), and on all of D: in_D implies inv_b and ep_ok_b (DomainInv), so the statement written down at the start (movegen_exact_statement over in_D) is proved. The tie of the model to the Rust generator: the real generator (all entry points) against the extracted specification on generated positions of D (play-outs, suite FENs, "
             "Chess960/DFRC starts, pin/check/ep/castling/promotion templates): a test, not a proof.", "DESIGN.md section 6 C01 and section 9", ""),
     "C02": ("proof", "Coq refinement proof makemove = Rules.apply for every move kind incl. castling in both geometries (stage decomposition, bit-by-bit board semantics, all nine state components) and for the null move; the executable premise and closure of D by differential model/implementation/Rules.apply on every legal move of sampled positions",
             "PARTIAL proof. Proved: (a) a null move passes the turn, clears the ep target, keeps absolute placement and rights; (b) for every "
@@ -75,10 +75,13 @@ CLAIMS = {
             "position satisfying InvR the stored key = recomputed key = spec_key of the abstract state reached (no legality premise: C01's gen_legal). "
             "The 'different positions had different keys' clause rests on the correspondence run.",
             "DESIGN.md section 6 C04", ""),
-    "C05": ("proof", "Coq lemmas on the model of `moves`/`position` + differential against the token-denotation specification",
-            "PARTIAL proof. Proved on the model: one key per position reached, in order; an unknown token changes nothing; only legal moves are "
-            "ever played. Agreement of the token matcher with the specification `denotes` (both notations, conventional castling strings) "
-            "rests on the correspondence run.", "DESIGN.md section 6 C05", ""),
+    "C05": ("proof", "Coq: the token matcher is the specification's denotation and the moves command follows the specification's play for every token list (on C01's equivalence generated = legal and C09's injective notation), history lemmas + differential against the token-denotation specification",
+            "Proof on the model: for every position satisfying the invariant, the en-passant consistency and the geometry invariant TokGeo (standard mode: a side with a castling right "
+            "has its king on the e-file; queen-side castle file west of the king-side one; true of the start position and of what the parser builds, kept by every move), and EVERY token list: "
+            "denotes (abs_state p) t = find_move p t, the command plays exactly the denoting tokens in order, reports all others as unknown without changing the position, and the history "
+            "holds one key per position reached (C05_moves_follow_the_specification). The geometry condition is needed (witness theorem: with both recorded castle files equal the alias e1g1 "
+            "resolves to the other wing's castling move). The tie of the model of uci/moves.rs and uci/position.rs to the code rests on the correspondence run (both notations, conventional "
+            "castling strings, almost-right spellings, stale castle files).", "DESIGN.md section 6 C05 and section 9", ""),
     "C07": ("proof", "Coq proof parse => validate for every string in both arithmetic modes + differential in both builds",
             "PARTIAL proof. Proved for every string and both modes: an accepted string yields a position that passed validate with the key "
             "recomputed from scratch, what validate guarantees (spelled out), and consistent bitboards (us|them = union of the piece boards, by the "
